@@ -70,6 +70,48 @@ fn main() {
                 }
             }
         }
+        "mkcorpus" => {
+            // vjx mkcorpus <out_dir> <n> <root>...: copy JSX-free JS files that parse as modules
+            let out = std::path::PathBuf::from(&args[2]);
+            let n: usize = args[3].parse().unwrap();
+            std::fs::create_dir_all(&out).unwrap();
+            let mut files = vec![];
+            fn walk(d: &std::path::Path, files: &mut Vec<std::path::PathBuf>) {
+                if let Ok(rd) = std::fs::read_dir(d) {
+                    let mut es: Vec<_> = rd.filter_map(|e| e.ok()).map(|e| e.path()).collect();
+                    es.sort();
+                    for p in es {
+                        if p.is_dir() {
+                            walk(&p, files);
+                        } else if p.extension().map(|e| e == "js" || e == "mjs").unwrap_or(false) {
+                            files.push(p);
+                        }
+                    }
+                }
+            }
+            for root in &args[4..] {
+                walk(std::path::Path::new(root), &mut files);
+            }
+            let stride = (files.len() / (n * 3)).max(1);
+            let mut kept = 0;
+            for f in files.iter().step_by(stride) {
+                if kept >= n {
+                    break;
+                }
+                let Ok(src) = std::fs::read_to_string(f) else { continue };
+                if src.len() < 600 || src.len() > 30_000 || src.contains(".min.") {
+                    continue;
+                }
+                let ok = vjx::driver::with_transform(&src, vjx::driver::Lang::Jsx, None, |t| {
+                    vjx::driver::jsx_census(&t.input).total == 0 && t.panicked.is_none()
+                });
+                if let Ok(true) = ok {
+                    kept += 1;
+                    std::fs::write(out.join(format!("{kept:03}.js")), &src).unwrap();
+                }
+            }
+            println!("kept {kept} of {} candidates", files.len());
+        }
         "check" => {
             let id = args.get(2).cloned().unwrap_or_else(|| usage());
             let mut tier = match std::env::var("VERIF_TIER").as_deref() {
